@@ -683,9 +683,9 @@ def more_units():
     mk = lambda label, props, gen, n, tier="quick", targets=(): us.append(ScenUnit(label + " (l<=%d)" % n, props, gen(n), tier=tier, kind="bounded", bound=B(n), targets=T(*targets), contracts_used=lower))
     mk("wkdibe::adjust_nondelegable == nondelegable_qualifykey(parent, to)", ["C14", "C11", "C12"], gen_adjust_nondelegable, 2, targets=["adjust_nondelegable"])
     mk("wkdibe::adjust_nondelegable == nondelegable_qualifykey(parent, to)", ["C14", "C11"], gen_adjust_nondelegable, 3, tier="thorough", targets=["adjust_nondelegable"])
-    mk("wkdibe::precompute == g3 + sum id_i h_i", ["C14", "C12"], gen_precompute, 3, targets=["precompute"])
-    mk("wkdibe::adjust_precomputed == precompute(to)", ["C14"], gen_adjust_precomputed, 3, targets=["adjust_precomputed"])
-    mk("wkdibe::adjust_precomputed == precompute(to)", ["C14"], gen_adjust_precomputed, 4, tier="thorough", targets=["adjust_precomputed"])
+    mk("wkdibe::precompute == g3 + sum id_i h_i", ["C14", "C12", "C13"], gen_precompute, 3, targets=["precompute"])      # encrypt, sign and verify bind the attribute list through it
+    mk("wkdibe::adjust_precomputed == precompute(to)", ["C14", "C12"], gen_adjust_precomputed, 3, targets=["adjust_precomputed"])      # a wrong product is a ciphertext for another identity
+    mk("wkdibe::adjust_precomputed == precompute(to)", ["C14", "C12"], gen_adjust_precomputed, 4, tier="thorough", targets=["adjust_precomputed"])
     mk("wkdibe::resamplekey preserves WF", ["C11", "C14"], gen_resample, 3, targets=["resamplekey"])
     mk("wkdibe::encrypt/decrypt/decrypt_master round trip", ["C11", "C14"], gen_encdec, 3, targets=["encrypt", "encrypt_precomputed", "decrypt", "decrypt_master"])
     mk("wkdibe::decrypt with a mismatching key / modified ciphertext", ["C12"], gen_mismatch, 2, targets=["encrypt", "decrypt"])
